@@ -134,6 +134,7 @@ pub fn run_batch(p: u8, flags: bool, seed_base: u64, max_seeds: u64, stats: &mut
         flat.sort_by_key(|x| x.0);
         for (i, r) in flat {
             b.seeds_tried += 1;
+            crate::engine::tick();
             stats.evaluations += 1;
             let seed = seed_base.wrapping_add(i);
             let Some((names, framed)) = r else {
